@@ -31,6 +31,7 @@ type probe struct {
 	tree []Ent
 	pat  Pat
 	mode string
+	alt  bool // spell ranges as lo~hi+1 and put match-hidden first
 }
 
 // Directed probes: the shapes of the known findings (reproduced in every run) and the examples of
@@ -41,32 +42,36 @@ func probes() []probe {
 	P := func(segs ...Seg) Pat { return Pat{Segs: segs} }
 	ps := []probe{
 		// restricted star after a star: ab·a·c
-		{[]Ent{file("abac")}, P(wild("star", false, setM("ab")), lit("a"), wild("star", false, setM("c"))), "rel"},
-		{[]Ent{file("abac"), file("ac")}, P(wild("star", false), lit("a"), wild("star", false, setM("c"))), "abs"},
+		{[]Ent{file("abac")}, P(wild("star", false, setM("ab")), lit("a"), wild("star", false, setM("c"))), "rel", false},
+		{[]Ent{file("abac"), file("ac")}, P(wild("star", false), lit("a"), wild("star", false, setM("c"))), "abs", false},
 		// two `**`: a/a reachable with the first slash in either
-		{[]Ent{dir("a"), file("a/a")}, P(wild("ss", false), lit("a"), wild("ss", false)), "rel"},
-		{[]Ent{dir("a"), file("a/a")}, P(wild("ss", false), lit("a"), wild("ss", false)), "glob"},
+		{[]Ent{dir("a"), file("a/a")}, P(wild("ss", false), lit("a"), wild("ss", false)), "rel", false},
+		{[]Ent{dir("a"), file("a/a")}, P(wild("ss", false), lit("a"), wild("ss", false)), "glob", false},
 		// symbolic links are regular files
-		{[]Ent{file("f"), symfile("s"), dir("d"), symdir("sd", "d")}, Pat{Segs: []Seg{wild("star", false)}, Type: "regular"}, "rel"},
-		{[]Ent{file("f"), symfile("s"), dir("d"), symdir("sd", "d")}, Pat{Segs: []Seg{wild("star", false)}, Type: "dir"}, "rel"},
+		{[]Ent{file("f"), symfile("s"), dir("d"), symdir("sd", "d")}, Pat{Segs: []Seg{wild("star", false)}, Type: "regular"}, "rel", false},
+		{[]Ent{file("f"), symfile("s"), dir("d"), symdir("sd", "d")}, Pat{Segs: []Seg{wild("star", false)}, Type: "dir"}, "rel", false},
 		// examples of the reference
-		{doc, P(wild("q", false), lit(".cc")), "rel"},
-		{doc, P(wild("star", false), lit(".cc")), "rel"},
-		{doc, P(wild("ss", false), lit(".cc")), "rel"},
-		{doc, P(wild("q", false), lit("x.conf")), "rel"},
-		{doc, P(lit("d"), slash(), wild("star", false), lit(".conf")), "rel"},
-		{doc, P(wild("ss", false), lit(".conf")), "rel"},
-		{doc, Pat{Segs: []Seg{lit("bad"), wild("star", false)}}, "rel"},
-		{doc, Pat{Segs: []Seg{lit("bad"), wild("star", false)}, Nomatchok: true}, "rel"},
-		{doc, Pat{Segs: []Seg{wild("ss", false)}, Type: "dir"}, "rel"},
-		{doc, P(wild("star", true), lit(".conf")), "rel"},
-		{doc, P(wild("star", true), slash(), wild("star", false), lit(".conf")), "rel"},
-		{doc, P(wild("q", false, setM(".a")), lit("x.conf")), "rel"},
-		{doc, P(wild("q", true, setM(".a")), lit("x.conf")), "rel"},
-		{doc, P(wild("star", false, setM("abc/"))), "rel"},
-		{doc, P(wild("q", false, setM("aeoiu"), classM("digit")), wild("star", false)), "rel"},
-		{doc, Pat{Segs: []Seg{wild("star", false)}, Buts: [][]int{runes("a.cc"), runes("nonexistent")}}, "rel"},
-		{doc, P(wild("star", false, rangeM('a', 'f')), lit(".cc")), "rel"},
+		{doc, P(wild("q", false), lit(".cc")), "rel", false},
+		{doc, P(wild("star", false), lit(".cc")), "rel", false},
+		{doc, P(wild("ss", false), lit(".cc")), "rel", false},
+		{doc, P(wild("q", false), lit("x.conf")), "rel", false},
+		{doc, P(lit("d"), slash(), wild("star", false), lit(".conf")), "rel", false},
+		{doc, P(wild("ss", false), lit(".conf")), "rel", false},
+		{doc, Pat{Segs: []Seg{lit("bad"), wild("star", false)}}, "rel", false},
+		{doc, Pat{Segs: []Seg{lit("bad"), wild("star", false)}, Nomatchok: true}, "rel", false},
+		{doc, Pat{Segs: []Seg{wild("ss", false)}, Type: "dir"}, "rel", false},
+		{doc, P(wild("star", true), lit(".conf")), "rel", false},
+		{doc, P(wild("star", true), slash(), wild("star", false), lit(".conf")), "rel", false},
+		{doc, P(wild("q", false, setM(".a")), lit("x.conf")), "rel", false},
+		{doc, P(wild("q", true, setM(".a")), lit("x.conf")), "rel", false},
+		{doc, P(wild("star", false, setM("abc/"))), "rel", false},
+		{doc, P(wild("q", false, setM("aeoiu"), classM("digit")), wild("star", false)), "rel", false},
+		{doc, Pat{Segs: []Seg{wild("star", false)}, Buts: [][]int{runes("a.cc"), runes("nonexistent")}}, "rel", false},
+		{doc, P(wild("star", false, rangeM('a', 'f')), lit(".cc")), "rel", false},
+		// both spellings of a range at its boundaries: b-c and b~d
+		{[]Ent{file("a"), file("b"), file("c"), file("d"), file("bd")}, P(wild("q", false, rangeM('b', 'c'))), "rel", false},
+		{[]Ent{file("a"), file("b"), file("c"), file("d"), file("bd")}, P(wild("q", false, rangeM('b', 'c'))), "rel", true},
+		{[]Ent{file("a"), file("b"), file("c"), file("d"), file("bd")}, P(wild("star", false, rangeM('b', 'c')), wild("q", true, rangeM('d', 'd'))), "rel", true},
 	}
 	return ps
 }
@@ -372,7 +377,7 @@ func record(c *lib.Ctx, pool evPool, tmp string) ([]vjob, error) {
 		mu.Unlock()
 	}
 	outOfModel := 0
-	runTree := func(root string, tree []Ent, dangling map[int]bool, pats []Pat, modes []string) error {
+	runTree := func(root string, tree []Ent, dangling map[int]bool, pats []Pat, modes []string, altBase int) error {
 		if err := materialise(root, tree, dangling); err != nil {
 			return lib.Infra("materialise %s: %v", treeText(tree), err)
 		}
@@ -387,7 +392,7 @@ func record(c *lib.Ctx, pool evPool, tmp string) ([]vjob, error) {
 				if mode == "glob" {
 					vc.Pat.Nomatchok = true
 				}
-				rr, err := execCase(ev, &vc, root, mode, i, i%2 == 1)
+				rr, err := execCase(ev, &vc, root, mode, i, (i+altBase)%2 == 1)
 				if err != nil {
 					fail(err)
 					return
@@ -415,7 +420,7 @@ func record(c *lib.Ctx, pool evPool, tmp string) ([]vjob, error) {
 		if !inModel(pr.pat) {
 			return nil, lib.Infra("probe %d is outside the model", i)
 		}
-		if err := runTree(filepath.Join(tmp, fmt.Sprintf("p%d", i)), pr.tree, nil, []Pat{pr.pat}, []string{pr.mode}); err != nil {
+		if err := runTree(filepath.Join(tmp, fmt.Sprintf("p%d", i)), pr.tree, nil, []Pat{pr.pat}, []string{pr.mode}, map[bool]int{false: 0, true: 1}[pr.alt]); err != nil {
 			return nil, err
 		}
 	}
@@ -448,7 +453,7 @@ func record(c *lib.Ctx, pool evPool, tmp string) ([]vjob, error) {
 			pats = append(pats, p)
 			modes = append(modes, mode)
 		}
-		if err := runTree(filepath.Join(tmp, fmt.Sprintf("v%d", t)), tree, dangling, pats, modes); err != nil {
+		if err := runTree(filepath.Join(tmp, fmt.Sprintf("v%d", t)), tree, dangling, pats, modes, t); err != nil {
 			return nil, err
 		}
 	}
